@@ -286,6 +286,19 @@ def b(k):
         errs.append("battery: " + repr(e)[:160])
 ts = [threading.Thread(target=b, args=(k,)) for k in range(nthreads)]
 [t.start() for t in ts]; [t.join() for t in ts]
+# one more converter, shared: all threads use it concurrently for the first time
+shared_res = []
+if %(shared)r:
+    sys.setswitchinterval(1e-5)
+    sc = cv.get_converter()
+    def s_(k):
+        try:
+            shared_res.append(c19.digest(c19.run_battery(sc, bat)))
+        except BaseException as e:
+            errs.append("shared-use: " + repr(e)[:160])
+    ts = [threading.Thread(target=s_, args=(k,)) for k in range(min(nthreads, 6))]
+    [t.start() for t in ts]; [t.join() for t in ts]
+    results.extend(shared_res)
 crit = [e for e in events if e[1] in ("_resolve_forward_references", "resolve_types", "_filter")]
 ih = hashlib.sha256(repr(crit).encode()).hexdigest()[:16]
 switches = sum(1 for a, b2 in zip(crit, crit[1:]) if a[0] != b2[0])
@@ -295,7 +308,7 @@ print(json.dumps({"errs": errs, "results": results, "events": len(events), "crit
 
 
 def run_trial(n, seed, inject, p=0.5, watchdog=240):
-    code = TRIAL % {"verif": common.VERIF, "n": n, "seed": seed, "inject": inject, "p": p, "watchdog": watchdog}
+    code = TRIAL % {"verif": common.VERIF, "n": n, "seed": seed, "inject": inject, "p": p, "watchdog": watchdog, "shared": (seed % 3 == 0)}
     env = dict(os.environ, PYTHONPATH=common.VERIF, PYTHONHASHSEED="0")
     try:
         pr = subprocess.run([common.PY, "-c", code], env=env, cwd=common.VERIF, capture_output=True, text=True, timeout=watchdog + 30)
